@@ -101,6 +101,10 @@ type zOp struct {
 	Mut     string     `json:"mut,omitempty"`    // which mutation produced the submission (statistics only)
 	// vpformat: keys of the verifier's vp_formats metadata handed to ChooseVPFormat
 	Supported []string `json:"supported,omitempty"`
+	// envjson (zz_verif_c12_envjson_test.go): the text handed to Envelope.UnmarshalJSON, its JSON class, and the libraries' verdicts on the bytes ParseEnvelope receives
+	EnvText  string     `json:"envText,omitempty"`
+	Outer    string     `json:"outer,omitempty"`
+	EnvBytes *zEnvBytes `json:"envBytes,omitempty"`
 	// nildef: a definition unmarshalled WITHOUT schema validation (null entries become nil pointers)
 	NilRaw string      `json:"nilRaw,omitempty"` // JSON text (replay)
 	RawDef interface{} `json:"rawDef,omitempty"` // for the model: descs / srs with nulls, nestedNull
@@ -1613,6 +1617,8 @@ func (r *zRun) replayFile(path string) {
 			}
 		case "vpformat":
 			r.opVPFormat(op.Supported)
+		case "envjson":
+			r.opEnvJSON(op.EnvText)
 		}
 	}
 }
@@ -1668,6 +1674,9 @@ func TestVerifC12(t *testing.T) {
 		if c%25 == 7 {
 			r.ecmaCase(rng)
 			continue
+		}
+		if c%20 == 9 {
+			r.envJSONCase(rng)
 		}
 		if c%40 == 3 {
 			// ChooseVPFormat on a random subset of metadata keys (in random order; nil map included)
